@@ -3,6 +3,7 @@ package main
 import (
 	"context"
 	"fmt"
+	"math/rand"
 	"reflect"
 	"time"
 
@@ -11,7 +12,26 @@ import (
 	"verif/harness/mbt"
 )
 
-const wait = 3 * time.Second
+// wait bounds every expectation of the replayer. After several consecutive
+// behaviours that diverged from the model (a systematic change of the code's
+// schedule) it is shortened so that a run still ends in reasonable time.
+var (
+	wait        = 3 * time.Second
+	finishWait  = 5 * time.Second
+	consecDrift = 0
+)
+
+func noteOutcome(diverged bool) {
+	if !diverged {
+		consecDrift = 0
+		wait, finishWait = 3*time.Second, 5*time.Second
+		return
+	}
+	consecDrift++
+	if consecDrift >= 3 {
+		wait, finishWait = 400*time.Millisecond, 1500*time.Millisecond
+	}
+}
 
 type drift struct{ msg string }
 
@@ -335,10 +355,8 @@ func (s *stepper) step(st mbt.Step) error {
 			}
 		}
 	case "SRecv":
-		if err := s.awaitCall(st.Int("op")-1, itemsOf(st, "batch")); err != nil {
-			return err
-		}
-		return s.waitSent(st.Int("nsent"))
+		// the router's own progress (nsent) is awaited by the next RStep
+		return s.awaitCall(st.Int("op")-1, itemsOf(st, "batch"))
 	case "STimeout":
 		return s.awaitCall(st.Int("op")-1, itemsOf(st, "batch"))
 	case "OTimerFire":
@@ -378,7 +396,7 @@ func (s *stepper) step(st mbt.Step) error {
 // finish lets the run complete without control and returns what was observed.
 func finish(w *world, total int) *runObs {
 	w.goAuto()
-	dl := time.Now().Add(5 * time.Second)
+	dl := time.Now().Add(finishWait)
 	for time.Now().Before(dl) {
 		streams, _, ckpts := w.snapshot()
 		n, bars := 0, 0
@@ -422,7 +440,8 @@ func replay(bi int, beh []mbt.Step, in *mbt.Input, res *mbt.Result) {
 		delay = time.Hour
 	}
 	tickMs.Store(3_600_000)
-	w, err := newWorld(Opts{Shape: sh, MaxSize: in.CfgInt("MaxSize", 2), Delay: delay, HarnessTm: true, Gated: true, Start: make([]int, sh.NSplits)})
+	w, err := newWorld(Opts{Shape: sh, MaxSize: in.CfgInt("MaxSize", 2), Delay: delay, HarnessTm: true, Gated: true, Start: make([]int, sh.NSplits),
+		Rng: rand.New(rand.NewSource(in.Seed*1000003 + int64(bi))), ReadMax: 3, JitterUs: 150})
 	if err != nil {
 		res.Errors = append(res.Errors, err.Error())
 		return
@@ -463,6 +482,7 @@ func replay(bi int, beh []mbt.Step, in *mbt.Input, res *mbt.Result) {
 			return
 		}
 	}
+	noteOutcome(diverged != "")
 	o := finish(w, remaining(sh, w.o.Start))
 	if p, what := o.safety(); what != "" {
 		viol(p, len(beh), what+divNote(diverged), o)
@@ -476,13 +496,14 @@ func replay(bi int, beh []mbt.Step, in *mbt.Input, res *mbt.Result) {
 	conc := w.maxConc
 	w.mu.Unlock()
 	if conc > 1 {
-		res.Count("concurrent_calls_to_one_operator", 1)
+		res.Count("behaviours_with_concurrent_calls_to_one_operator", 1)
 	}
 	// C16-cut: restart from the first reported position
 	if len(o.ckpts) > 0 && in.CfgBool("Restart", true) {
 		c := o.ckpts[0]
 		w.close()
-		w2, err := newWorld(Opts{Shape: sh, MaxSize: w.o.MaxSize, Delay: time.Hour, HarnessTm: true, Gated: false, Start: c.Pos, GBase: 1000})
+		w2, err := newWorld(Opts{Shape: sh, MaxSize: w.o.MaxSize, Delay: time.Hour, HarnessTm: true, Gated: false, Start: c.Pos, GBase: 1000,
+			Rng: rand.New(rand.NewSource(in.Seed*1000003 + int64(bi) + 7)), ReadMax: 3, JitterUs: 150})
 		if err != nil {
 			res.Errors = append(res.Errors, "restart: "+err.Error())
 			return
